@@ -310,6 +310,9 @@ def run(ctx: Ctx):
     col.floor("srswor_call_sites", n_srs, 1)
     # ---- S8 conditional relaxed density: -inf exactly where threshold(z) differs from b as an *event* ----------------
     _clog_prob_masks(ctx)
+    _threshold_surrogate_is_exact(ctx)
+    _estimate_rank(ctx)
+    _callback_results_not_mutated(ctx)
     plumbing(ctx, "S6")
     return dict(
         explanation=(
@@ -420,10 +423,146 @@ def _clog_prob_masks(ctx: Ctx):
     col.floor("clog_prob_masks", n, 2)
 
 
+def _threshold_surrogate_is_exact(ctx: Ctx):
+    """S9: `threshold(z, straight_through=True)` must still return the discrete sample: the zero-valued surrogate has
+    to be formed first, `b + (z - z.detach())`. `(b + z) - z.detach()` rounds (b + z) and comes back as 0.99999994 or
+    1.0000001, which is outside the Boolean / one-hot support."""
+    col, pkg = ctx.col, ctx.pkg
+    n = 0
+    for f in pkg.all_functions():
+        if f.name != "threshold" or f.cls is None or f.module.name.split(".")[-1] != "_straight_through":
+            continue
+        rel = f.module.relname
+        for x in own_nodes(f.node):
+            if isinstance(x, ast.BinOp) and isinstance(x.op, ast.Sub) and isinstance(x.right, ast.Call) \
+                    and isinstance(x.right.func, ast.Attribute) and x.right.func.attr == "detach":
+                n += 1
+                grouped = u(x.left) == u(x.right.func.value)
+                col.ob("G15", "S9", f"{rel}::{f.qualname}::straight-through-surrogate-formed-first", grouped,
+                       f"`{u(x)}` subtracts `{u(x.right)}` from `{u(x.left)}` rather than from `{u(x.right.func.value)}`: in "
+                       f"floating point (b + z) - z is not b, so the straight-through result is not exactly 0/1 and fails the "
+                       f"distribution's own support check", rel, x.lineno)
+    col.floor("straight_through_surrogates", n, 2)
+
+
+def _estimate_rank(ctx: Ctx):
+    """S10: an estimator returns a tensor of the proposal's batch shape, whatever `is_log` is. With the rank of
+    `func(b)` as reference (0), reductions over the Monte Carlo axis lower the rank by one unless keepdim=True; an
+    element-wise combination has the larger rank of its operands. Both valuations of `self.is_log` must return rank -1."""
+    from sa.defuse import ReachingDefs
+    from sa.specialise import specialise
+    col, pkg = ctx.col, ctx.pkg
+    f = pkg.func("_mc::DirectEstimator.__call__")
+    rel = f.module.relname
+    res = {}
+    for flag in (True, False):
+        node, folded = specialise(f.node, {"self.is_log": flag})
+        if folded < 2:
+            raise AnalysisError("C19: DirectEstimator.__call__ no longer branches on self.is_log")
+        rd = ReachingDefs(node)
+        NEG = -99
+
+        def rk(e, depth=0):
+            if depth > 30:
+                return None
+            if isinstance(e, ast.Constant):
+                return NEG
+            if isinstance(e, ast.Name):
+                ds = list(rd.defs_of(e))
+                vals = []
+                for d in ds:
+                    if d.kind == "assign" and d.value is not None:
+                        vals.append(rk(d.value, depth + 1))
+                    else:
+                        vals.append(None)
+                vals = [v for v in vals if v is not None]
+                return max(vals) if vals else None
+            if isinstance(e, ast.Attribute):
+                return None if u(e).startswith("self.") else rk(e.value, depth + 1)
+            if isinstance(e, ast.BinOp):
+                a, b = rk(e.left, depth + 1), rk(e.right, depth + 1)
+                vs = [v for v in (a, b) if v is not None]
+                return max(vs) if vs else None
+            if isinstance(e, ast.Subscript):
+                return rk(e.value, depth + 1)
+            if isinstance(e, ast.Call):
+                cn = call_name(e)
+                if isinstance(e.func, ast.Attribute) and u(e.func.value) in ("self", "self.proposal") or cn in ("self.func", "self.cv"):
+                    if cn in ("self.func", "self.cv", "self.proposal.log_prob"):
+                        return 0
+                    return None
+                if isinstance(e.func, ast.Attribute):
+                    m, r = e.func.attr, rk(e.func.value, depth + 1)
+                    if r is None:
+                        return None
+                    if m in ("mean", "sum", "max", "min", "logsumexp", "prod") and e.args and u(e.args[0]) == "0":
+                        kd = any(k.arg == "keepdim" and isinstance(k.value, ast.Constant) and k.value.value for k in e.keywords)
+                        return r if kd else r - 1
+                    if m == "unsqueeze":
+                        return r + 1
+                    if m == "squeeze" and e.args:
+                        return r - 1
+                    return r
+                if cn.startswith("math."):
+                    return NEG
+            return None
+        rets = [n for n in ast.walk(node) if isinstance(n, ast.Return) and n.value is not None]
+        res[flag] = [rk(r.value) for r in rets]
+    ok = all(v == [-1] for v in res.values())
+    col.ob("G19", "S10", f"{rel}::DirectEstimator.__call__::estimate-has-the-batch-shape", ok,
+           f"relative to func(b) (Monte Carlo axis first) the returned estimate has rank offset {res} for is_log True / False; "
+           f"both must be -1 (the batch shape): a term reduced with keepdim=True is added back after the mean, so the log-space "
+           f"estimate keeps a leading axis of size 1", rel, f.line, sample={str(k): v for k, v in res.items()})
+
+
+def _callback_results_not_mutated(ctx: Ctx):
+    """S11: the value a user-supplied callable returned (`self.func(...)`) may alias the caller's tensors (a constant
+    `c.expand(...)`): it must not be modified in place (augmented assignment or trailing-underscore method) through any
+    local alias."""
+    from sa.defuse import ReachingDefs
+    col = ctx.col
+    n_sites = 0
+    for f in ctx.owned():
+        if f.cls is None or f.name != "__call__":
+            continue
+        rd = ReachingDefs(f.node)
+        rel = f.module.relname
+
+        def aliases_callback(e, depth=0):
+            if depth > 6:
+                return False
+            if isinstance(e, ast.Call):
+                if call_name(e) in ("self.func", "self.cv"):
+                    return True
+                if isinstance(e.func, ast.Attribute) and e.func.attr in ("squeeze", "unsqueeze", "view", "expand", "detach", "t", "transpose"):
+                    return aliases_callback(e.func.value, depth + 1)
+                return False
+            if isinstance(e, ast.Name):
+                return any(d.kind == "assign" and d.value is not None and aliases_callback(d.value, depth + 1) for d in rd.defs_of(e))
+            return False
+        bad = []
+        for n in own_nodes(f.node):
+            if isinstance(n, ast.AugAssign) and isinstance(n.target, ast.Name):
+                tl = ast.Name(id=n.target.id, ctx=ast.Load())
+                rd.use_defs[id(tl)] = rd.use_defs.get(id(n.target), frozenset())
+                if aliases_callback(tl):
+                    bad.append(n)
+        if any(call_name(c) in ("self.func",) for c in own_calls(f.node)):
+            n_sites += 1
+            col.ob("G29", "S11", f"{rel}::{f.qualname}::callback-result-not-modified-in-place", not bad,
+                   f"`{u(bad[0]) if bad else ''}` modifies in place a tensor that can be the very object `self.func` returned "
+                   f"(when exactly one sample is kept): an expanded constant raises, any other tensor of the caller is "
+                   f"silently overwritten", rel, bad[0].lineno if bad else f.line, nontrivial=False)
+    col.floor("estimator_calls_checked", n_sites, 4)
+
+
 def _mutants():
     from selftest.mutate import Mutant as M
     F = "_mc.py"
     return [
+        M("straight-through-rounds", "_straight_through.py", "b = b + (z - z.detach())", "b = b + z - z.detach()", "straight-through-surrogate-formed-first"),
+        M("log-estimate-keeps-sample-axis", "_mc.py", "v = fb.log() + deriv - deriv.detach() + fb_lmax.squeeze(0)", "v = fb.log() + deriv - deriv.detach() + fb_lmax", "estimate-has-the-batch-shape"),
+        M("mh-divides-callback-result-in-place", "_mc.py", "v = v / num_kept", "v /= num_kept", "callback-result-not-modified-in-place"),
         M("categorical-mismatch-needs-all", "_straight_through.py", "zero_prob = (bcond != b).any(-1)", "zero_prob = (bcond != b).all(-1)", "zero-off-the-threshold-preimage"),
         M("bernoulli-mask-inverted", "_straight_through.py", "zero_prob = bcond != b", "zero_prob = bcond == b", "zero-off-the-threshold-preimage"),
         M("twin:mismatch-by-not-all-equal", "_straight_through.py", "zero_prob = (bcond != b).any(-1)", "zero_prob = ~(bcond == b).all(-1)", "", twin=True),
